@@ -11,6 +11,8 @@
    (model/RunC17.v, ./check C17).  Statements only. *)
 From Compio.Model Require Import Base Asyncify.
 From Compio.Thm Require Import AsyncifyThm.
+From Compio.Gen Require Frag.
+From Compio.Thm Require FragMiscThm.
 
 (* the number of pool threads that exist, and of those inside a job, never
    exceeds the limit (for every limit, 0 included); `counter` is exactly the
@@ -251,3 +253,20 @@ Proof.
     repeat split; vm_compute; reflexivity.
 Qed.
 Print Assumptions C17_nonvacuous.
+
+(* ---- source tie (translated from the Rust source on every run by tools/rs2v.py
+        into gen/Frag.v; an edit of the function changes the generated definition) ---- *)
+(* the closure AsyncifyPool::dispatch hands to counter.fetch_update
+   (`(n < self.thread_limit).then_some(n + 1)`, compio-driver/src/asyncify.rs) as the source
+   has it now decides exactly the model's two labels: Some c' = ECheckOk (slot reserved, the
+   counter becomes c'), None = ECheckFail (the closure is handed back) - never both *)
+Theorem C17_reserve_is_source : forall s d j,
+  nth_error (disp s) d = Some (DFull j) -> limit s <> 0 ->
+  match Frag.asyncify_reserve (counter s) (limit s) with
+  | Some c' => Asyncify.step s (ECheckOk d) = Some (set_counter (set_d s d (DSpawn j)) c')
+               /\ Asyncify.step s (ECheckFail d) = None
+  | None => Asyncify.step s (ECheckFail d) = Some (set_d s d (DRejected j))
+            /\ Asyncify.step s (ECheckOk d) = None
+  end.
+Proof. exact FragMiscThm.reserve_tie. Qed.
+Print Assumptions C17_reserve_is_source.
